@@ -661,6 +661,32 @@ func (c *Client) write(quit <-chan struct{}, p []byte) error {
 	return nil
 }
 
+// WriteFromRead is like write for the read routine exclusively. It does not
+// wait for pending connects, as the read routine is the one who (re)connects.
+func (c *Client) writeFromRead(p []byte) error {
+	// lock write
+	conn, ok := <-c.writeSem
+	switch {
+	case !ok:
+		return ErrClosed
+	case conn == connDown, conn == connPending:
+		c.writeSem <- conn // unlock
+		return fmt.Errorf("%w; connection terminated by a failed write", ErrSubmit)
+	}
+
+	err := writeTo(conn, p, c.PauseTimeout)
+	if err != nil {
+		if !nonNilIsAny(err, connClosedErrors) {
+			conn.Close() // signal read routine
+		}
+		c.writeSem <- connPending // unlock write; pending connect
+		return errors.Join(ErrSubmit, err)
+	}
+
+	c.writeSem <- conn // unlock write
+	return nil
+}
+
 // WriteBuffers submits the packet. Keep synchronised with write!
 func (c *Client) writeBuffers(quit <-chan struct{}, p net.Buffers) error {
 	conn, err := c.lockWrite(quit)
@@ -1235,7 +1261,7 @@ func (c *Client) readSlices() (message, topic []byte, err error) {
 				return nil, nil, err
 			}
 		}
-		err := c.write(nil, c.pendingAck)
+		err := c.writeFromRead(c.pendingAck)
 		if err != nil {
 			c.toOffline()
 			return nil, nil, err // keeps pendingAck to retry
@@ -1422,7 +1448,7 @@ func (c *Client) onPUBLISH(head byte) (message, topic []byte, err error) {
 		}
 		if bytes != nil {
 			// The broker may have missed the previous PUBREC.
-			err = c.write(nil, []byte{typePUBREC << 4, 2, byte(packetID >> 8), byte(packetID)})
+			err = c.writeFromRead([]byte{typePUBREC << 4, 2, byte(packetID >> 8), byte(packetID)})
 			if err != nil {
 				return nil, nil, err
 			}
@@ -1461,7 +1487,7 @@ func (c *Client) onPUBREL() error {
 		return fmt.Errorf("mqtt: internal error: ack %#x pending during PUBREL reception", c.pendingAck)
 	}
 	c.pendingAck = append(c.pendingAck, typePUBCOMP<<4, 2, byte(packetID>>8), byte(packetID))
-	err = c.write(nil, c.pendingAck)
+	err = c.writeFromRead(c.pendingAck)
 	if err != nil {
 		return err // causes resubmission of PUBCOMP
 	}
